@@ -83,8 +83,7 @@ func runC07(c *Ctx) {
 // c07Exhaustive: every type switch over the resolution sum type (and over the policy sum type for
 // C14, see there) handles every implementer or has a rejecting/panicking default.
 func sumTypeSwitches(c *Ctx, rule, ifacePkg, ifaceName string, min int) {
-	p := c.P
-	pkg := p.Pkg(ifacePkg)
+	pkg := c.P.Pkg(ifacePkg)
 	if pkg == nil {
 		c.Undecided(rule, "anchor", "", "package does not resolve")
 		return
@@ -94,7 +93,13 @@ func sumTypeSwitches(c *Ctx, rule, ifacePkg, ifaceName string, min int) {
 		c.Undecided(rule, "anchor", "", ifaceName+" does not resolve")
 		return
 	}
-	iface, _ := tn.Type().Underlying().(*types.Interface)
+	sumTypeSwitchesOn(c, rule, tn.Type(), ifaceName, min)
+}
+
+// sumTypeSwitchesOn checks every type switch whose subject has exactly the given interface type.
+func sumTypeSwitchesOn(c *Ctx, rule string, target types.Type, ifaceName string, min int) {
+	p := c.P
+	iface, _ := target.Underlying().(*types.Interface)
 	if iface == nil {
 		c.Undecided(rule, "anchor", "", ifaceName+" is not an interface")
 		return
@@ -126,7 +131,7 @@ func sumTypeSwitches(c *Ctx, rule, ifacePkg, ifaceName string, min int) {
 					subj = a.X.(*ast.TypeAssertExpr).X
 				}
 				st := pk.TypesInfo.TypeOf(subj)
-				if st == nil || !types.Identical(st, tn.Type()) {
+				if st == nil || !types.Identical(st, target) {
 					return true
 				}
 				n++
@@ -167,6 +172,7 @@ func sumTypeSwitches(c *Ctx, rule, ifacePkg, ifaceName string, min int) {
 
 // switches that are partial by design: one named symbol with its reason
 var partialSwitchOK = map[string]string{
+	"types.SpendPolicy.deepCopy":            "only the kinds that own reference memory (threshold children, unlock-condition keys) need cloning; the others are plain values",
 	"types.V2TransactionSemantics.EncodeTo": "normalisation step only (strips signatures / the history proof from the kinds that carry them); every kind is then encoded by the resolution's own EncodeTo",
 }
 
